@@ -451,6 +451,8 @@ func c06EndsAttrScenario() *hist.Scenario {
 			`{{define "lh"}}" href="{{.S}}"{{end}}{{define "li"}}<link rel="icon{{template "lh" .}}>{{end}}{{define "ls"}}<link rel="stylesheet{{template "lh" .}}>{{end}}` +
 			`{{define "qh"}}" href="/a?{{end}}{{define "qp"}}<a title="/a?{{template "qh" .}}{{.S}}">p</a>{{end}}{{define "qq"}}<a title="zz{{template "qh" .}}{{.S}}">q</a>{{end}}` +
 			`{{define "jh"}}" href="java{{end}}{{define "jp"}}<a title="java{{template "jh" .}}">p</a>{{end}}{{define "jq"}}<a title="/x?{{template "jh" .}}{{.S}}">q</a>{{end}}{{define "jr"}}<a title="/x{{template "jh" .}}{{.S}}">r</a>{{end}}` +
+			// a helper called after a complete attribute name and after one that is split over text nodes
+			`{{define "sh"}}{{.S}}{{end}}{{define "sp"}}<p title="{{template "sh" .}}">p</p>{{end}}{{define "sq"}}<p title{{if .L}}{{end}}x="{{template "sh" .}}">q</p>{{end}}{{define "st"}}<p{{if .L}}{{end}}re title="{{template "sh" .}}">t</p>{{end}}` +
 			`R{{.S}}`,
 		Data: histData(),
 	}
@@ -458,7 +460,7 @@ func c06EndsAttrScenario() *hist.Scenario {
 
 func c06EndsAttrAlphabet() []hist.Op {
 	var ops []hist.Op
-	for _, name := range []string{"np", "nq", "li", "ls", "qp", "qq", "jp", "jq", "jr"} {
+	for _, name := range []string{"np", "nq", "li", "ls", "qp", "qq", "jp", "jq", "jr", "sp", "sq", "st"} {
 		ops = append(ops, hist.Op{Kind: hist.Exec, H: 0, Form: 2, Name: name, Arg: 0})
 	}
 	ops = append(ops, hist.Op{Kind: hist.Exec, H: 0, Form: 2, Name: "li", Arg: 1}, hist.Op{Kind: hist.Exec, H: 0, Form: 2, Name: "jr", Arg: 1}, hist.Op{Kind: hist.Exec, H: 0, Form: 0, Arg: 0})
@@ -512,7 +514,7 @@ func c07Scenario() *hist.Scenario {
 	return &hist.Scenario{
 		Name:     "freeze-and-clone",
 		RootName: "root",
-		Init:     `{{define "a"}}<b>{{.S}}</b>{{end}}{{define "c"}}[{{template "a" .}}]{{end}}{{define "lit"}}1 < 2{{end}}R:{{template "c" .}}{{template "lit"}}`,
+		Init:     `{{define "a"}}<b>{{.S}}</b>{{end}}{{define "c"}}[{{template "a" .}}]{{end}}{{define "lit"}}1 < 2{{end}}{{define "ev"}}<a href="#top" onclick="go()">{{.S}}</a>{{end}}R:{{template "c" .}}{{template "lit"}}`,
 		Texts: []string{
 			`{{define "a"}}<i>{{.S}}</i>{{end}}`,
 			`{{define "n"}}N{{.S}}{{end}}`,
@@ -541,6 +543,9 @@ func c07Alphabet() []hist.Op {
 		hist.Op{Kind: hist.Exec, H: 1, Form: 1, Arg: 0}, hist.Op{Kind: hist.Exec, H: 3, Form: 0, Arg: 0},
 		hist.Op{Kind: hist.Exec, H: 4, Form: 2, Name: "c", Arg: 0}, hist.Op{Kind: hist.Parse, H: 4, Arg: 2},
 		hist.Op{Kind: hist.Templates, H: 0}, hist.Op{Kind: hist.Defined, H: 2},
+		// a setting of one set (CSP-compatible mode refuses the inline handler of "ev") must not reach its clones or its origin
+		hist.Op{Kind: hist.CSP, H: 0}, hist.Op{Kind: hist.CSP, H: 2},
+		hist.Op{Kind: hist.Exec, H: 0, Form: 2, Name: "ev", Arg: 0}, hist.Op{Kind: hist.Exec, H: 2, Form: 2, Name: "ev", Arg: 0},
 	)
 	return ops
 }
